@@ -7,6 +7,7 @@ import ClaripyProofs.Lemmas.VSA.Signed
 import ClaripyProofs.Lemmas.VSA.Extract
 import ClaripyProofs.Lemmas.VSA.SextSound
 import ClaripyProofs.Lemmas.VSA.AndXor
+import ClaripyProofs.Lemmas.VSA.ConcatSound
 /-!
 # C21 — strided-interval transfer functions are sound
 
@@ -204,6 +205,23 @@ example : (SI.new 4 3 13 3).WF ∧ (SI.new 4 2 1 7).WF ∧ (SI.new 4 3 13 3).mem
     (∃ r, (SI.new 4 0 8 8).bitwiseAnd (SI.new 4 3 13 3) = .ok r ∧ r.mem 8 ∧ r.mem 0) := by
   refine ⟨by decide, by decide, by decide, by decide, ⟨_, rfl, by decide, by decide⟩, ⟨_, rfl, by decide⟩,
     ⟨_, rfl, by decide⟩, ⟨_, rfl, by decide, by decide⟩⟩
+
+/-! ## concat (widen, `_lshift`, zero-extend, then `bitwise_or` — or plain addition when the high part is one value) -/
+
+/-- `concat` is sound and closed; wrapping operands on either side included.  The integer shortcut adds the bounds of
+the zero-extended low operand to the shifted high value without reducing them: `zeroExtend_bounds` shows they stay below
+`2^b.bits`, so the sums stay below `2^(a.bits + b.bits)`. -/
+theorem C21_concat_sound (a b r : SI) (ha : a.WF) (hb : b.WF) (hab : a.bottom = false) (hbb : b.bottom = false)
+    (h : a.concat b = .ok r) :
+    (r.WF ∧ r.bits = a.bits + b.bits) ∧ ∀ x y, a.mem x → b.mem y → r.mem (Conc.concat b.bits x y) :=
+  let g := concat_sound a b r ha hb hab hbb h
+  ⟨g.1.1, g.2⟩
+
+/-- non-vacuity: a wrapping high operand, a wrapping low operand below a single high value -/
+example : (SI.new 3 3 6 4).WF ∧ (SI.new 2 1 3 1).WF ∧ (SI.new 3 3 6 4).mem 1 ∧ (SI.new 2 1 3 1).mem 0 ∧
+    (∃ r, (SI.new 3 3 6 4).concat (SI.new 2 1 3 1) = .ok r ∧ r.mem (Conc.concat 2 1 0) ∧ r.bits = 5) ∧
+    (∃ r, (SI.new 3 0 5 5).concat (SI.new 2 1 3 1) = .ok r ∧ r.mem (Conc.concat 2 5 3) ∧ r.mem 20 ∧ ¬ r.mem 24) := by
+  refine ⟨by decide, by decide, by decide, by decide, ⟨_, rfl, by decide, by decide⟩, ⟨_, rfl, by decide, by decide, by decide⟩⟩
 
 /-! ## sdiv — false on the code (floor instead of truncation), finding C21-sdiv-floor -/
 
